@@ -89,9 +89,16 @@ class _OpxRange(ExcelWrapper.RangeData):
             formula = tuple(tuple(cls.cell_to_formula(cell) for cell in row)
                             for row in cells)
 
-        values = tuple(tuple(cell.value for cell in row)
+        values = tuple(tuple(cls.stored_value(cell) for cell in row)
                        for row in cells_dataonly)
         return ExcelWrapper.RangeData.__new__(cls, address, formula, values)
+
+    @staticmethod
+    def stored_value(cell):
+        if cell.value is None and cell.data_type == 'str':
+            # the stored result of a formula which evaluated to ""
+            return ''
+        return cell.value
 
     @classmethod
     def cell_to_formula(cls, cell):
@@ -138,7 +145,8 @@ class _OpxCell(_OpxRange):
     def __new__(cls, cell, cell_dataonly, address):
         assert isinstance(address, AddressCell)
         return ExcelWrapper.RangeData.__new__(
-            cls, address, cls.cell_to_formula(cell), cell_dataonly.value)
+            cls, address, cls.cell_to_formula(cell),
+            cls.stored_value(cell_dataonly))
 
 
 class ExcelOpxWrapper(ExcelWrapper):
